@@ -439,7 +439,7 @@ def evaluate__sum(self: XPathFunction, context: ta.ContextType = None) -> ta.One
     elif any(isinstance(x, (StringProxy, AnyURI)) for x in values):
         raise self.error('FORG0006', 'cannot apply fn:sum() to string-based types')
     elif any(isinstance(x, float) and math.isnan(x) for x in values):
-        return math.nan
+        result = math.nan
     elif all(isinstance(x, Float) for x in values):
         result = sum(values)
     else:
@@ -452,6 +452,9 @@ def evaluate__sum(self: XPathFunction, context: ta.ContextType = None) -> ta.One
                 return []
             raise self.error('FORG0006') from None
 
+    if type(result) is float and \
+            all(isinstance(x, (Float, decimal.Decimal, int)) for x in values):
+        result = Float(result)  # no xs:double in the sequence: the sum is an xs:float
     assert isinstance(result, AnyAtomicType)
     return result
 
